@@ -311,6 +311,11 @@ extern void hwloc__reorder_children(hwloc_obj_t parent);
 extern void hwloc_topology_setup_defaults(struct hwloc_topology *topology);
 extern void hwloc_topology_clear(struct hwloc_topology *topology);
 
+#ifdef HWLOC_VERIF
+/* verification hook, only compiled with -DHWLOC_VERIF: the conformance recorder defines hwloc_verif_event() */
+extern void hwloc_verif_event(const char *name, unsigned long a, unsigned long b) __attribute__((weak));
+#endif
+
 #define _HWLOC_RECONNECT_FLAG_KEEPSTRUCTURE (1UL<<0)
 extern int hwloc__reconnect(struct hwloc_topology *topology, unsigned long flags);
 /* update total_memory, symmetric_subtree and group depths after inserting Groups in a loaded topology */
